@@ -10,7 +10,10 @@ except Exception as ex:
 for f in sorted(glob.glob('/verif/evidence/*.json')):
     try:
         e = json.load(open(f)); jsonschema.validate(e, es)
-        c = e['coverage']; print(f.split('/')[-1], 'valid', e['level'], c.get('obligations'), c.get('discharged'), e['wall_s'])
+        c = e['coverage']
+        if e['level'] == 'proof' and c.get('obligations') != c.get('discharged'):
+            ok = False; print(f, 'INVALID for level proof: discharged', c.get('discharged'), '!= obligations', c.get('obligations'))
+        print(f.split('/')[-1], 'valid', e['level'], c.get('obligations'), c.get('discharged'), e['wall_s'])
     except Exception as ex:
         ok = False; print(f, 'INVALID', str(ex)[:500])
 sys.exit(0 if ok else 1)
